@@ -697,6 +697,23 @@ func Run(r *ev.Run) {
 		}
 	}
 
+	// ---- B3 the smallest records there are: a root (or no) question plus option-less OPT records (11 octets each) and nothing else ----
+	for _, q := range [][]dns.Question{nil, {{Name: "", Type: 2, Class: 1}}, {{Name: ".", Type: 2, Class: 1}}} {
+		for nopt := 1; nopt <= 3; nopt++ {
+			for _, rc := range []uint8{0, 1} {
+				m := dns.Message{ID: 5, QR: 1, RCode: rc, Question: q}
+				for i := 0; i < nopt; i++ {
+					m.Additional = append(m.Additional, dns.RR{Type: 41, Class: 4096, TTL: uint32(i) << 24, Data: []dns.Option{}})
+				}
+				checkPkgMessage(r, m, "minimal-records", false)
+				wire := m.Bytes()
+				if dec, err := dns.DecodeMessage(wire); err != nil || len(dec.Additional) != nopt {
+					r.Violation("decode-rejects-valid:minimal-records", fmt.Sprintf("a message of %d bytes (root/no question, %d option-less OPT records) does not decode back: %v", len(wire), nopt, err), fmt.Sprintf("%x", wire))
+				}
+			}
+		}
+	}
+
 	// ---- C extended RCODE ----
 	for rc := 0; rc < 16; rc++ {
 		for _, hi := range []uint32{0, 1, 0x80, 0xff} {
@@ -732,8 +749,9 @@ func Run(r *ev.Run) {
 		Extra   int    `json:"extra_records"`
 		QType   string `json:"qtype"`
 	}
-	optStates := []string{"none", "empty", "other-options", "stale-padding", "stale-padding-twice", "opt-not-last"}
-	pp := enum.Product{253, len(optStates), 2, 2, 2}
+	optStates := []string{"none", "empty", "other-options", "stale-padding", "stale-padding-twice", "opt-not-last", "opt-without-data", "opt-nil-option-list"}
+	// (sizes: extra = 2 adds TXT answers up to ~1200 / ~4000 octets; the OPT class - the advertised UDP payload size - takes 512/1232/4096)
+	pp := enum.Product{253, len(optStates), 4, 2, 2}
 	enum.ParallelFor(pp.Size(), func(i int) {
 		d := pp.Decode(i)
 		nl := d[0] + 1
@@ -751,11 +769,28 @@ func Run(r *ev.Run) {
 			m.Additional = []dns.RR{{Type: 41, Class: 4096, Data: []dns.Option{{Code: 12, Data: make([]byte, 77)}, {Code: 10, Data: make([]byte, 8)}}}}
 		case "stale-padding-twice":
 			m.Additional = []dns.RR{{Type: 41, Class: 4096, Data: []dns.Option{{Code: 12, Data: make([]byte, 1)}, {Code: 12, Data: make([]byte, 130)}}}}
+		case "opt-without-data":
+			// an OPT record written as dns.RR{Type: 41, Class: 4096}: no Data at all
+			m.Additional = []dns.RR{{Type: 41, Class: 4096}}
+		case "opt-nil-option-list":
+			m.Additional = []dns.RR{{Type: 41, Class: 4096, Data: []dns.Option(nil)}}
 		case "opt-not-last":
 			m.Additional = []dns.RR{{Type: 41, Class: 4096, Data: []dns.Option{}}, {Name: "z.example", Type: 1, Class: 1, Data: ip4a}}
 		}
 		if pc.Extra == 1 {
 			m.Answer = []dns.RR{{Name: name, Type: 1, Class: 1, TTL: 1, Data: ip4b}}
+		}
+		if pc.Extra >= 2 && optStates[d[1]] != "opt-without-data" { // (a record without Data cannot be serialised before AddPadding has run)
+			// a long message: address records until about 1180 (Extra 2) / 3990 (Extra 3) octets, with the OPT class varied
+			target := map[int]int{2: 1180 + nl%60, 3: 3960 + nl%100}[pc.Extra]
+			for len(m.Bytes()) < target {
+				m.Answer = append(m.Answer, dns.RR{Name: "a", Type: 28, Class: 1, TTL: 1, Data: ip6a})
+			}
+			for i := range m.Additional {
+				if m.Additional[i].Type == 41 {
+					m.Additional[i].Class = []uint16{512, 1232, 4096, 0}[nl%4]
+				}
+			}
 		}
 		func() {
 			defer func() {
